@@ -14,11 +14,14 @@ META = {
                   "counter, any number of double rounds), C15_stream64_eq_iff(_seek), C15_stream32_eq_iff(_seek) (true "
                   "exactly when key and non-counter words agree), C15_set_param_ok and concrete examples (non-vacuity).",
     "level_note": "Trusted: Coq kernel+VM; hand-written model Model/ChaChaGuts.v tied to guts.rs on generated cases; "
-                  "harness. Parameters >= 2 (out-of-bounds index in the Rust) are outside the property: precondition "
-                  "p < 2. No axioms.",
+                  "harness. Parameters >= 2 are outside the property (precondition p < 2): in the Rust the index is (param << 1) on "
+                  "u32, so 2^31 and 2^31+1 alias parameters 0 and 1 and every other value indexes out of bounds (panic); the model "
+                  "returns None for all of them, C15_param_index_agrees relates the exact index computation to the model on the "
+                  "parameters of the property. The history theorems (C15_history_*) start from ChaCha::new with an 8- or 12-byte "
+                  "nonce, not from XChaCha states. No axioms.",
     "rule": "cases = (key, 8- or 12-byte nonce, 3..9 operations) from seeded xoshiro; operations: set_stream_param(0|1, "
             "structured 64-bit value) 30%, get 20%, refill(drounds 4|6|10) 20%, compare with a second state that differs "
-            "in exactly one key bit (8 word positions), exactly one bit of one of the four d words, or not at all 30%; "
+            "in exactly one key bit (8 word positions; lowest / highest / random bit), exactly one bit of one of the four d words, several words at once with differences that cancel under xor or addition or permute words, or not at all 30%; "
             "distinct = distinct (key, nonce, operation list), all non-trivial; direct checks on the implementation: "
             "get(set v) = v, other parameter unchanged, refill = block of a cipher created with nonce = stream id and "
             "seeked to the counter, stream32_eq/stream64_eq = expected truth value for the word that differs; the model "
